@@ -2,10 +2,10 @@ package main
 
 import (
 	"context"
-	"os/exec"
 	"fmt"
 	"math/rand"
 	"os"
+	"os/exec"
 	"path/filepath"
 	"runtime"
 	"strconv"
@@ -92,7 +92,7 @@ type asmCase struct {
 	seeds   []asmSeed
 	files   [][]byte
 	n       int
-	yield   int64 // 0: no scheduling noise
+	yield   int64  // 0: no scheduling noise
 	mut     string // "" or "k.kind.seed": at the k-th yield site hit, seed file `seed` is changed (kind: 0 truncate to nothing, 1 cut in half, 2 overwrite, 3 flip a byte, 4 remove, 5 cut at a chunk start)
 }
 
